@@ -181,6 +181,85 @@ segwit_feed!(segwit_feed_l13, 13, 16, 19);
 //@ harness: segwit_feed_l17 class=B tier=thorough bound="string el1 + 17 lower-case data characters (version, 4 payload, 12 checksum), all contents; check_characters by contract" props=C17,C06 timeout=1200
 //@ clause: same with a 4-character payload (rejected for length after a correct checksum)
 segwit_feed!(segwit_feed_l17, 17, 20, 23);
-//@ harness: segwit_feed_l69 class=B tier=thorough bound="string el1 + 69 lower-case data characters (version, 56 payload = 33-byte key + 2-byte program, 12 checksum), all contents; check_characters by contract" props=C17,C06 timeout=3600
-//@ clause: same at the shortest ACCEPTABLE blinded length: Ok => residue over ALL data characters equals the target of the version's variant; version character and 12 checksum characters are stripped only after validation
-segwit_feed!(segwit_feed_l69, 69, 72, 75);
+
+// The shortest string that `new` can ACCEPT has 69 data characters (version + 56 = 33-byte key and 2-byte
+// program + 12 checksum).  With the real polymod on both sides that harness (segwit_feed at N = 69) did not
+// finish in 50 min / 9.6 GB.  For the accepting path the checksum verdict is therefore taken from a RECORDING
+// model of `validate_checksum` (arbitrary verdict; records which data slice and which Ck it was asked about);
+// what the real validate_checksum computes on that slice is verdict_l* above.
+struct Rec { calls: usize, ptr: usize, len: usize, target_is_one: bool, cklen: usize, verdict_ok: bool }
+static mut REC: Rec = Rec { calls: 0, ptr: 0, len: 0, target_is_one: false, cklen: 0, verdict_ok: false };
+
+fn validate_checksum_rec<'s, Ck: Checksum>(this: &UncheckedHrpstring<'s>) -> Result<(), ChecksumError>
+where 's: 's // makes 's early-bound so that the generic parameter count matches the method's
+{
+    use bech32::primitives::checksum::PackedFe32;
+    let ok: bool = kani::any();
+    unsafe {
+        REC.calls += 1;
+        REC.ptr = this.data.as_ptr() as usize;
+        REC.len = this.data.len();
+        REC.target_is_one = Ck::TARGET_RESIDUE == <Ck::MidstateRepr as PackedFe32>::ONE;
+        REC.cklen = Ck::CHECKSUM_LENGTH;
+        REC.verdict_ok = ok;
+    }
+    // contract of the real function (verdict_l11): too short for a checksum is an error
+    if this.data.len() < Ck::CHECKSUM_LENGTH { return Err(ChecksumError::InvalidChecksumLength); }
+    if ok { Ok(()) } else { Err(ChecksumError::InvalidChecksum) }
+}
+
+macro_rules! segwit_rec {
+    ($name:ident, $n:expr, $total:expr) => {
+        #[kani::proof]
+        #[kani::stub(super::check_characters, check_characters_contract)]
+        #[kani::stub(super::UncheckedHrpstring::validate_checksum, validate_checksum_rec)]
+        fn $name() {
+            const N: usize = $n;           // data characters: version + payload + checksum
+            const T: usize = $total;       // N + 3 ("el1")
+            let (vals, chars) = any_vals::<N>();
+            let mut text = [0u8; T];
+            text[0] = b'e'; text[1] = b'l'; text[2] = b'1';
+            let mut i = 0;
+            while i < N { text[3 + i] = chars[i]; i += 1; }
+            let mut i = 0;
+            while i < T { assert!(text[i] < 128); i += 1; }
+            let s: &str = unsafe { core::str::from_utf8_unchecked(&text) };
+            let version = vals[0];
+            let r = SegwitHrpstring::new(s);
+            let (calls, ptr, len, t1, cklen, vok) = unsafe { (REC.calls, REC.ptr, REC.len, REC.target_is_one, REC.cklen, REC.verdict_ok) };
+            let recorder_active = calls > 0;
+            let accepted = r.is_ok();
+            if version > 16 {
+                assert!(matches!(r, Err(SegwitHrpstringError::InvalidWitnessVersion(_))));
+                assert!(calls == 0);
+            } else if recorder_active { // (under `cargo kani playback` stubs are not applied: skip)
+                assert!(calls == 1, "the checksum is validated exactly once");
+                assert!(ptr == text[3..].as_ptr() as usize && len == N, "over ALL data characters: version first, checksum last");
+                assert!(cklen == 12);
+                assert!(t1 == (version == 0), "Blech32 (target 1) iff witness version 0, else Blech32m");
+                if !vok { assert!(matches!(r, Err(SegwitHrpstringError::Checksum(_))), "a failed checksum is final"); }
+            }
+            if let Ok(ref seg) = r {
+                assert!(version <= 16 && seg.witness_version.to_u8() == version);
+                assert!(seg.data.len() == N - 13 && seg.data.as_ptr() == text[4..].as_ptr()); // stripped only afterwards
+                assert!(seg.hrp == Hrp::parse_unchecked("el"));
+                // C06: what is accepted carries 33 + (2..=40) bytes, version 0 only 33+20 / 33+32
+                let bytes = (N - 13) * 5 / 8;
+                assert!(bytes >= 35 && bytes <= 73 && (version != 0 || bytes == 53 || bytes == 65));
+            }
+            kani::cover!(recorder_active);
+            kani::cover!(recorder_active && t1 && vok);
+            kani::cover!(recorder_active && !t1 && !vok);
+            kani::cover!(accepted && version == 16);
+            kani::cover!(N != 98 || (accepted && version == 0));
+            kani::cover!(version == 17);
+            core::mem::forget(r);
+        }
+    };
+}
+//@ harness: segwit_rec_l69 class=B tier=quick bound="string el1 + 69 lower-case data characters (version, 56 payload, 12 checksum), all contents; check_characters by contract, validate_checksum by recording model" props=C17,C06 timeout=900
+//@ clause: SegwitHrpstring::new at the shortest acceptable blinded length: version > 16 rejected; else validate_checksum is asked exactly once, about ALL data characters (version included, before it is stripped), for Blech32 iff version 0 else Blech32m, CHECKSUM_LENGTH 12; a negative verdict is final; on Ok the version character and the 12 checksum characters are stripped afterwards and the payload is 35..=73 bytes
+segwit_rec!(segwit_rec_l69, 69, 72);
+//@ harness: segwit_rec_l98 class=B tier=quick bound="string el1 + 98 lower-case data characters (version, 85 payload = 53 bytes, 12 checksum), all contents; same models" props=C17,C06 timeout=900
+//@ clause: same at the length of a blinded version-0 P2WPKH address (33 + 20 bytes): version 0 is accepted, with the Blech32 variant
+segwit_rec!(segwit_rec_l98, 98, 101);
